@@ -954,3 +954,26 @@ def _mc_stack(st, o, name):
 def _mc_stack_show(st):
     qm = _money()
     return "ok " + ",".join(st.obj["mcname", id(c)] for c in qm.Money._converters)
+
+
+@op("q_alloc")
+def _q_alloc(st, a, ratios, disp, d):
+    with dflt_mode(d):
+        qa = qty_of(a)
+        rs = []
+        for t in ([] if ratios == "-" else ratios.split(",")):
+            if t.startswith("n:"):
+                rs.append(to_dec_or_frac(parse_rat(t[2:])) if st.numkind != "int" or parse_rat(t[2:]).denominator != 1
+                          else int(parse_rat(t[2:])))
+            else:
+                rs.append(qty_of(t[2:]))
+        before = (qa.amount, qa.unit)
+        portions, rem = qa.allocate(rs, disp == "1")
+        assert before == (qa.amount, qa.unit), "allocate changed its receiver"
+        assert all(p is not qa for p in portions)
+        assert all(type(p) is type(qa) and p.unit is qa.unit for p in portions)
+        assert type(rem) is type(qa) and rem.unit is qa.unit
+        for p in portions:
+            assert type(p.amount) in (Decimal, _F)
+        return (f"ok {','.join(rat(p.amount) for p in portions)}@{qa.unit.symbol}:"
+                f"{type(qa).__name__} rem={rat(rem.amount)}")
